@@ -1,27 +1,24 @@
-// Package worlds maps world names to implementations.
+// Package worlds links every world package (each registers itself with simkit.Register).
 package worlds
 
 import (
 	"testing"
 
 	"github.com/aergoio/aergo/v2/zz_verif/simkit"
-	"github.com/aergoio/aergo/v2/zz_verif/worlds/chainw"
-	"github.com/aergoio/aergo/v2/zz_verif/worlds/exec"
-	"github.com/aergoio/aergo/v2/zz_verif/worlds/store"
+	_ "github.com/aergoio/aergo/v2/zz_verif/worlds/chainw"
+	_ "github.com/aergoio/aergo/v2/zz_verif/worlds/dposw"
+	_ "github.com/aergoio/aergo/v2/zz_verif/worlds/exec"
+	_ "github.com/aergoio/aergo/v2/zz_verif/worlds/gov"
+	_ "github.com/aergoio/aergo/v2/zz_verif/worlds/pool"
+	_ "github.com/aergoio/aergo/v2/zz_verif/worlds/raftw"
+	_ "github.com/aergoio/aergo/v2/zz_verif/worlds/store"
+	_ "github.com/aergoio/aergo/v2/zz_verif/worlds/syncw"
+	_ "github.com/aergoio/aergo/v2/zz_verif/worlds/wire"
 )
 
-func Get(name, scratch string, m *testing.M) simkit.World {
-	switch name {
-	case "store-trie":
-		return &store.C10{Scratch: scratch}
-	case "chain":
-		return &chainw.World{Scratch: scratch}
-	case "exec":
-		return &exec.World{Scratch: scratch}
-	case "store-proof":
-		return &store.C11{Scratch: scratch}
-	case "store-snap":
-		return &store.C12{Scratch: scratch}
+func Get(name, scratch string, t *testing.T) simkit.World {
+	if c := simkit.Lookup(name); c != nil {
+		return c(scratch, t)
 	}
 	return nil
 }
